@@ -21,6 +21,8 @@ var registry = map[string]func(p *Prog, r *Report){}
 func register(id string, f func(p *Prog, r *Report)) { registry[id] = f }
 
 func init() {
+	register("C01", checkC01)
+	register("C03", checkC03)
 	register("C04", checkC04)
 	register("C05", checkC05)
 	register("C06", checkC06)
